@@ -113,7 +113,7 @@ def run_shape(shape, tier):
 
 def _model_from_solver(path, nb, mode):
     s = path.solver
-    if s.check() == z3.sat:
+    if core.guarded_check(s, 30) == z3.sat:
         m = s.model()
         return {"n_tasks": int(core.model_value(m, z3.Int("n_tasks"))), "start_idx": int(core.model_value(m, z3.Int("start_idx"))),
                 "n_batches": nb, "mode": mode}
